@@ -106,11 +106,11 @@ macro "ok_cases" : tactic =>
 lemmas.  A side condition closed by definitional (`rfl`) lemmas alone yields a proof whose type matches only
 after unfolding `Agent.core`, which `simp` refuses to assign; these propositional copies (tried first) avoid that. -/
 @[simp high] theorem core_mk' (cfg tieBreaker controlling started closed connState localUfrag localPwd remoteUfrag remotePwd
-    locals remotes checklist nextPairID nextUid nextTid tag pending selected selStart nominatedPair lastNomination
+    locals remotes checklist nextPairID nextUid nextTid tag pending selected selStart nominatedPair lastNomination answeredNomination
     lastSeen checkingStart checkingTimeout forcePending nextTick caches rx connBytesSent connBytesRecv
     onConnectedFired generation nomIssued) :
     (Agent.mk cfg tieBreaker controlling started closed connState localUfrag localPwd remoteUfrag remotePwd
-    locals remotes checklist nextPairID nextUid nextTid tag pending selected selStart nominatedPair lastNomination
+    locals remotes checklist nextPairID nextUid nextTid tag pending selected selStart nominatedPair lastNomination answeredNomination
     lastSeen checkingStart checkingTimeout forcePending nextTick caches rx connBytesSent connBytesRecv
     onConnectedFired generation nomIssued).core = ⟨cfg, tieBreaker, tag, controlling, lastNomination, localUfrag, localPwd,
       remoteUfrag, remotePwd, started, closed⟩ := (core_mk ..).trans rfl
